@@ -2,7 +2,10 @@
 (* C18 - State Vector Sync, one instance (ndn.app_support.svs.sync.SvsInst).
 
    One action per critical section of sync.py (the code never awaits inside one):
-     RecvSV     sync_handler  - a sync Interest reached the handler
+     RecvSV     sync_handler  - a sync Interest reached the handler; parameter r = what the
+                application does INSIDE the missing-data callback (re-entrancy): r calls of
+                new_data(). The callback is the last thing the handler does, so the publication
+                applies after the handler's own state update and must be announced at once
      Publish    new_data (n calls in one loop turn) + the immediate wake-up of on_timer
      TimerFire  the TimeoutError branch of on_timer
      Tick       virtual time passes (no code runs)
@@ -57,6 +60,7 @@ CONSTANTS NodeOrder,   \* sequence of node ids (strings); NodeOrder[1] is this n
           SupBase, SyncBase, Jitter,   \* impl mode: timers are SupBase+j / SyncBase+j ticks, j \in Jitter
           MaxT,        \* open mode: timers range over 0..MaxT
           MaxBurst,    \* same-instant publications per Publish
+          MaxReact,    \* publications the application may make inside one missing-data callback
           MaxEv,       \* bound on the number of events (0 = unbounded)
           TickEnds,    \* TRUE: time only advances to the expiry or to one tick before it (replay graph)
           UseHint      \* TRUE only in SvsTrace: see `hint`
@@ -157,22 +161,36 @@ Count == nev' = IF MaxEv = 0 THEN 0 ELSE nev + 1
 More == MaxEv = 0 \/ nev < MaxEv
 
 \* last.sup: the step started in Suppress
-LastRecv(p, acc) == [a |-> "RecvSV", n |-> 0, acc |-> acc, dec |-> Decodable(p), dmg |-> Damaged(p),
+LastRecv(p, acc, r) == [a |-> "RecvSV", n |-> r, acc |-> acc, dec |-> Decodable(p), dmg |-> Damaged(p),
                      oc |-> Overclaims(p, selfSeq), v |-> Vec(p), sup |-> (state = "Suppress"),
                      old |-> OlderEntries(p, local) # {}, old0 |-> 0 \in OlderEntries(p, local)]
 LastOther(a, n) == [a |-> a, n |-> n, acc |-> FALSE, dec |-> FALSE, dmg |-> FALSE, oc |-> FALSE, v |-> Zero,
                     sup |-> (state = "Suppress"), old |-> FALSE, old0 |-> FALSE]
 
-Ignore(p) ==
+Ignore(p, r) ==
   /\ UNCHANGED <<local, selfSeq, state, heard, agg>>
   /\ timer' \in KeepTimer
   /\ out' = <<>> /\ missed' = 0
-  /\ last' = LastRecv(p, FALSE)
+  /\ last' = LastRecv(p, FALSE, r)
 
-Process(p, j) ==
+\* the callback runs last: r > 0 publications inside it (new_data: own entry, state Steady,
+\* next_sync_timing = 0) override whatever the handler decided about suppression and timers,
+\* and on_timer wakes up at once
+ProcessAndPublish(p, j, r, l2) ==
+  /\ selfSeq' = selfSeq + r
+  /\ local' = [l2 EXCEPT ![Self] = selfSeq + r]
+  /\ missed' = 1
+  /\ \E m \in (IF Mode = "impl" THEN {1} ELSE 1..r) :
+       out' = [i \in 1..m |-> [l2 EXCEPT ![Self] = selfSeq + r - m + i]]
+  /\ state' = "Steady" /\ heard' = Zero /\ agg' = Zero
+  /\ timer' \in SyncTimers(j)
+  /\ last' = LastRecv(p, TRUE, r)
+
+Process(p, j, r) ==
   LET es == SelectSeq(p.es, Good)
       l2 == Merge(local, es)
-  IN  /\ local' = l2
+  IN  IF r > 0 /\ l2 # local THEN ProcessAndPublish(p, j, r, l2) ELSE
+      /\ local' = l2
       /\ missed' = (IF l2 # local THEN 1 ELSE 0)
       /\ out' = <<>>
       /\ UNCHANGED selfSeq
@@ -189,7 +207,7 @@ Process(p, j) ==
               /\ heard' = MaxV(heard, DictOf(es))
               /\ agg' = Aggregate(agg, l2, es)
               /\ timer' \in KeepTimer
-      /\ last' = LastRecv(p, TRUE)
+      /\ last' = LastRecv(p, TRUE, r)
 
 DevNoSeqEnabled(p) ==
   /\ "noSeq" \in Dev /\ p.k = "sv"
@@ -199,11 +217,11 @@ DevNoSeqEnabled(p) ==
        /\ ~(\E i \in 1..Len(es) : es[i].id = Self /\ ~HasSeq(es[i]))   \* that one fails in the first loop
        /\ Merge(local, BeforeNoSeq(es)) # local                        \* otherwise same as "reject"
 
-DevNoSeq(p) ==
+DevNoSeq(p, r) ==
   /\ local' = Merge(local, BeforeNoSeq(WithId(p.es)))
   /\ UNCHANGED <<selfSeq, state, heard, agg, timer>>
   /\ out' = <<>> /\ missed' = 0
-  /\ last' = LastRecv(p, FALSE)
+  /\ last' = LastRecv(p, FALSE, r)
 
 RecvChoices(p) ==
   {"norm"} \cup (IF Decodable(p) /\ ~OverclaimIn(WithId(p.es), selfSeq)
@@ -213,15 +231,18 @@ RecvChoices(p) ==
            \cup (IF DevNoSeqEnabled(p) THEN {"devNoSeq"} ELSE {})
 
 \* the jitter parameter is part of the stimulus; it is fixed to 0 where no choice can sample a timer
-RecvSV(p, j, c) ==
+RecvSV(p, j, c, r) ==
   /\ Hinted
   /\ More /\ Count
   /\ c \in RecvChoices(p)
   /\ LET hopeless == p.k # "sv" \/ p.es = <<>> \/ OverclaimIn(WithId(p.es), selfSeq)
+         raises == ~hopeless /\ Merge(local, SelectSeq(p.es, Good)) # local
      IN  /\ (hopeless \/ state = "Suppress") => j = 0
-         /\ IF c = "devNoSeq" THEN DevNoSeq(p)
-            ELSE IF hopeless \/ c = "reject" THEN Ignore(p)
-            ELSE Process(p, j)
+         /\ ~raises => r = 0            \* the reaction is part of the stimulus only where the callback can fire
+         /\ selfSeq + r <= MaxSeq
+         /\ IF c = "devNoSeq" THEN DevNoSeq(p, r)
+            ELSE IF hopeless \/ c = "reject" THEN Ignore(p, r)
+            ELSE Process(p, j, r)
 
 (* on_timer, TimeoutError branch *)
 FireChoices ==
@@ -285,7 +306,7 @@ Init == \E s0 \in InitSeqs : \E j \in JitterSet :
 
 \* (choices are quantified over constant sets and filtered inside the actions so that TLC labels
 \*  every transition with the action name and all its parameters)
-Next == \/ \E p \in Packets, j \in JitterSet, c \in {"norm", "reject", "devNoSeq"} : RecvSV(p, j, c)
+Next == \/ \E p \in Packets, j \in JitterSet, c \in {"norm", "reject", "devNoSeq"}, r \in 0..MaxReact : RecvSV(p, j, c, r)
         \/ \E j \in JitterSet, c \in {"norm", "skip", "devAgg"} : TimerFire(j, c)
         \/ \E n \in 1..MaxBurst, j \in JitterSet, m \in 1..MaxBurst : Publish(n, j, m)
         \/ \E d \in 1..MaxT : Tick(d)
@@ -295,6 +316,9 @@ Spec == Init /\ [][Next]_vars
 -----------------------------------------------------------------------------
 (* Properties of C18 (action properties: they relate a state to its successor) *)
 IsRecv == last'.a = "RecvSV"
+\* the application published inside the missing-data callback of this step
+CbPub == IsRecv /\ missed' = 1 /\ last'.n > 0
+Others == Nodes \ {Self}
 
 TypeOK == /\ local \in [Nodes -> 0..MaxSeq] /\ heard \in [Nodes -> 0..MaxSeq] /\ agg \in [Nodes -> 0..MaxSeq]
           /\ selfSeq \in 0..MaxSeq /\ state \in {"Steady", "Suppress"} /\ timer \in 0..MaxT
@@ -309,7 +333,8 @@ Monotone == [][\A n \in Nodes : local'[n] >= local[n]]_vars
 \*  received vector"; a decodable, undamaged vector that does not over-claim must be accepted,
 \*  an undecodable or over-claiming one must not, and nothing but RecvSV / Publish moves the vector
 EntrywiseMax ==
-  [][ /\ (IsRecv /\ last'.acc) => local' = MaxV(local, last'.v)
+  [][ /\ (IsRecv /\ last'.acc) => local' = [MaxV(local, last'.v) EXCEPT ![Self] = selfSeq']
+      /\ (IsRecv /\ ~CbPub) => selfSeq' = selfSeq
       /\ (IsRecv /\ ~last'.acc) => local' = local
       /\ (IsRecv /\ last'.dec /\ ~last'.dmg /\ ~last'.oc) => last'.acc
       /\ (IsRecv /\ (~last'.dec \/ last'.oc)) => ~last'.acc
@@ -323,8 +348,15 @@ OverclaimIgnored ==
 
 \* "the missing-data callback fires for a received vector iff that vector raised some entry"
 MissingIffRaised ==
-  [][ /\ IsRecv => (missed' = 1 <=> local' # local)
+  [][ /\ IsRecv => (missed' = 1 <=> \E n \in Others : local'[n] # local[n])
       /\ ~IsRecv => missed' = 0 ]_vars
+
+\* the publish clause for publications made inside the missing-data callback (re-entrancy)
+CallbackPublishEmits ==
+  [][ CbPub =>
+        /\ selfSeq' = selfSeq + last'.n
+        /\ local'[Self] = selfSeq'
+        /\ out' # <<>> /\ out'[Len(out')] = local' ]_vars
 
 \* "publishing increases the own sequence number by one [per publication] and promptly [in the
 \*  same instant] emits a sync Interest carrying the full vector"
@@ -339,7 +371,7 @@ HeardIsMerge ==
   [][ /\ (IsRecv /\ last'.acc /\ state' = "Suppress") =>
             heard' = (IF state = "Suppress" THEN MaxV(heard, last'.v) ELSE last'.v)
       /\ (IsRecv /\ ~last'.acc) => heard' = heard
-      /\ (IsRecv /\ state = "Suppress") => state' = "Suppress"
+      /\ (IsRecv /\ state = "Suppress" /\ ~CbPub) => state' = "Suppress"
       /\ last'.a = "Tick" => (heard' = heard /\ state' = state) ]_vars
 
 \* "after a suppression period a sync Interest is emitted iff the local vector is newer in some
@@ -352,13 +384,13 @@ SuppressionDecision ==
 \* "announces exactly when needed": an accepted vector that explicitly carries an entry below the
 \* local one (value 0 included) and is heard in Steady starts a suppression period
 OutdatedStartsSuppression ==
-  [][ (IsRecv /\ last'.acc /\ last'.old /\ state = "Steady") => state' = "Suppress" ]_vars
+  [][ (IsRecv /\ last'.acc /\ last'.old /\ state = "Steady" /\ ~CbPub) => state' = "Suppress" ]_vars
 
 \* whatever is emitted at an expiry is one Interest carrying the full local vector; nothing is
-\* emitted by RecvSV or Tick
+\* emitted by Tick, nor by RecvSV unless the application published inside the callback
 EmitsOnlyLocal ==
   [][ /\ last'.a = "TimerFire" => (out' = <<>> \/ out' = <<local'>>)
-      /\ last'.a \in {"RecvSV", "Tick"} => out' = <<>> ]_vars
+      /\ (last'.a = "Tick" \/ (IsRecv /\ ~CbPub)) => out' = <<>> ]_vars
 
 -----------------------------------------------------------------------------
 (* Vacuity witnesses. The situations the properties talk about must occur; because the properties
@@ -368,7 +400,7 @@ EmitsOnlyLocal ==
 WitnessNames == <<"SupEmit", "SupNoEmit", "OverclaimWouldRaise", "Incomparable", "OlderNoCallback",
                   "DamagedAccepted", "DamagedRejected", "UndecodableInSup", "Burst", "PublishInSup",
                   "SteadyEmit", "HeardInSup", "EnterSup", "ActRecvSV", "ActPublish", "ActTimerFire", "ActTick",
-                  "OutdatedZero">>
+                  "OutdatedZero", "CallbackPublish", "CallbackPublishInSup", "CallbackPublishTwice">>
 WBase == 9000
 ASSUME \A i \in 1..Len(WitnessNames) : TLCSet(WBase + i, 0)
 Seen(i, cond) == (cond /\ TLCGet(WBase + i) = 0) => (PrintT(<<"WITNESS", WitnessNames[i]>>) /\ TLCSet(WBase + i, 1))
@@ -390,5 +422,8 @@ Witnesses ==
       /\ Seen(15, last'.a = "Publish")
       /\ Seen(16, last'.a = "TimerFire")
       /\ Seen(17, last'.a = "Tick")
-      /\ Seen(18, IsRecv /\ last'.acc /\ last'.old0 /\ state = "Steady" /\ state' = "Suppress") ]_vars
+      /\ Seen(18, IsRecv /\ last'.acc /\ last'.old0 /\ state = "Steady" /\ state' = "Suppress")
+      /\ Seen(19, CbPub /\ state = "Steady")
+      /\ Seen(20, CbPub /\ state = "Suppress")
+      /\ Seen(21, CbPub /\ last'.n >= 2) ]_vars
 =============================================================================
